@@ -7,7 +7,8 @@ from sa.astx import call_attr, call_name, src, statements, walk_local
 from sa.effects import class_accesses
 from sa.selftest import Mutant, Silent
 from sa.source import AnalysisError, class_assigns, methods
-from sa.props._lib_i import (sect, NotPure, Raised, class_env, eval_block, guards_hold, is_self_attr, module_env, peval, words)
+from sa.props._lib_i import (sect, COMPAT, BlockRaised, FollowModule, Model, NotPure, Raised, bind_methods, class_env, eval_block, is_self_attr, module_env, peval,
+                             words)
 
 PROPERTY = "C40"
 INCLUDE = [("C16", ("line", "pause"), "SMTP (LineOnlyReceiver) and SMTPClient (LineReceiver) sit on the line receivers of protocols/basic.py; "
@@ -19,10 +20,11 @@ EXPLANATION = (
     "Writer: SMTPClient.transformChunk (any idiom: replace chain, precompiled class-level regex, carried state) is evaluated on "
     "every chunking of all bodies over {'.', LF, other} up to length 4 against the RFC 5321 4.5.2 reference (LF -> CRLF, a '.' at "
     "line start doubled): no '.' elsewhere may be doubled, no other byte changed, every line-start '.' whose line start lies inside "
-    "its chunk doubled; a line-start '.' that is the first byte of a chunk must be doubled too (today it is not: known finding F40). finishedFileTransfer is evaluated for every kind of last byte; smtpState_data must wire "
-    "both into FileSender, whose resumeProducing must transform every chunk it writes and remember the last written byte. "
-    "Reader: in SMTP.dataLineReceived the end-of-data actions are guarded by exactly line == b'.', exactly one leading '.' is "
-    "stripped from other dot-lines, every other line reaches message.lineReceived(line); lineReceived dispatches state_<mode> "
+    "its chunk doubled; a line-start '.' that is the first byte of a chunk must be doubled too (today it is not: known finding F40). finishedFileTransfer is evaluated for every kind of last byte; smtpState_data, evaluated with recording stand-ins, must hand "
+    "the mail file, the transport and that transformer to FileSender and chain the terminator emitter; FileSender.resumeProducing "
+    "is evaluated call after call (every chunk transformed once, last byte remembered, completion only at EOF). Reader: "
+    "SMTP.dataLineReceived is evaluated line by line with recording messages - private helpers are followed - : end of data exactly "
+    "at b'.', one leading '.' stripped from other dot-lines, every other line delivered, DATA mode survives a refusing message sink; lineReceived dispatches state_<mode> "
     "and state_DATA is dataLineReceived; self.mode has an allow-list of writers and do_DATA arms DATA mode and the per-message "
     "state before 354. Not decided: end-to-end body equality, LineOnlyReceiver framing (C16), over-long lines."
 )
@@ -250,35 +252,102 @@ def _check_finish(ctx, cn, f, delim_cli, delim_srv):
                   f"transfer on a line that is exactly '.', which needs {want!r}")
 
 
+class _Recorder(Model):
+    """Stand-in object that records the methods called on it (name, args)."""
+
+    def __init__(self, label, returns=None):
+        self._label = label
+        self._returns = returns or {}
+        self.calls = []
+
+    def __getattr__(self, name):
+        if name.startswith("_"):
+            raise AttributeError(name)
+
+        def method(*a, **kw):
+            self.calls.append((name, a, kw))
+            r = self._returns.get(name)
+            return r(*a, **kw) if callable(r) else r
+        method.__name__ = "lam"
+        return method
+
+    def __bool__(self):
+        return True
+
+
+class SMTPServerError(Exception, Model):
+    """Stand-in for twisted.mail.smtp.SMTPServerError raised by a modelled message sink (same class name, .code / .resp)."""
+
+    def __init__(self, code=550, resp=b"refused"):
+        Exception.__init__(self, code, resp)
+        self.code, self.resp = code, resp
+
+
+def _client_chain(ctx, cn):
+    mod = ctx.mod(SMTP)
+    return [ctx.cls(SMTP, "SMTPClient")] + ([mod.find(cn)] if cn != "SMTPClient" and isinstance(mod.find(cn), ast.ClassDef) else [])
+
+
+def _method_name(v):
+    return getattr(v, "method_name", None)
+
+
 def _check_wiring(ctx, cn, f, delim_srv, delim_cli):
-    """smtpState_data: FileSender gets self.<transform>; the resulting Deferred fires self.<finish>."""
+    """smtpState_data, evaluated with recording stand-ins: the FileSender must get the mail file, the transport and the client's
+    transformer; the resulting Deferred must fire the client's terminator emitter."""
     q = f"twisted.mail.smtp.{cn}.{f.name}"
     ctx.functions.add(f"{SMTP}:{cn}.{f.name}")
-    begins = [c for c in ast.walk(f) if isinstance(c, ast.Call) and call_attr(c) == "beginFileTransfer"]
-    ctx.need(begins, f"beginFileTransfer call in {q}")
+    mod = ctx.mod(SMTP)
+    chain = _client_chain(ctx, cn)
+    mailfile, transport = object(), object()
+    deferred = _Recorder("deferred")
+    deferred._returns.update({k: (lambda *a, **kw: deferred) for k in ("addCallback", "addCallbacks", "addErrback", "addBoth")})
+    sender = _Recorder("FileSender", {"beginFileTransfer": lambda *a, **kw: deferred})
+    funcs = FollowModule(mod, dict(COMPAT), module_env(mod))
+    funcs["basic.FileSender"] = lambda *a: sender
+    funcs["FileSender"] = lambda *a: sender
+    env = class_env(chain, module_env(mod))
+    env.update({"self": object(), "self.transport": transport, "self.getMailData": lambda: mailfile})
+    for pn in [a.arg for a in f.args.args][1:]:
+        env[pn] = 354 if pn == "code" else b"go ahead"
+    bind_methods(env, chain, funcs, skip={f.name})
+    try:
+        r = eval_block(f.body, env, funcs=funcs)
+    except BlockRaised as ex:
+        raise AnalysisError(f"{q}: not evaluable ({ex})")
+    if r.raised:
+        raise AnalysisError(f"{q}: raises {r.raised}")
+    begins = [(a, kw) for name, a, kw in sender.calls if name == "beginFileTransfer"]
+    ctx.check(len(begins) == 1, "client/transform-wired", q + " | one file transfer", f"{len(begins)} file transfers are started for one DATA command")
     done = set()
-    for b in begins:
-        tr = b.args[2] if len(b.args) > 2 else next((k.value for k in b.keywords if k.arg == "transform"), None)
-        ok = tr is not None and is_self_attr(tr)
-        ctx.check(ok, "client/transform-wired", ctx.construct(q, b),
-                  "the message file is handed to FileSender without the dot-stuffing / newline transformer: body lines go out "
-                  "with bare LF and un-stuffed dots")
-        cons = b.args[1] if len(b.args) > 1 else next((k.value for k in b.keywords if k.arg == "consumer"), None)
-        ctx.check(cons is not None and src(cons) == "self.transport", "client/transform-wired", ctx.construct(q, b) + " | consumer",
-                  "the body is not written to the connection's transport")
-        if ok:
-            for c2, tf in _definitions(ctx, CLIENT_CLASSES, tr.attr):
+    for a, kw in begins:
+        fileobj = a[0] if a else kw.get("file")
+        cons = a[1] if len(a) > 1 else kw.get("consumer")
+        tr = a[2] if len(a) > 2 else kw.get("transform")
+        tname = _method_name(tr)
+        ctx.check(tname is not None, "client/transform-wired", q + " | transformer",
+                  "the message file is handed to FileSender without the client's dot-stuffing / newline transformer: body lines go out with bare LF and un-stuffed dots")
+        ctx.check(cons is transport and fileobj is mailfile, "client/transform-wired", q + " | file and consumer",
+                  "the FileSender is not given the mail data file and the connection's transport")
+        if tname:
+            defs = _definitions(ctx, CLIENT_CLASSES, tname)
+            ctx.check(bool(defs), "client/transform-wired", q + " | transformer resolves", f"self.{tname} is not defined in the SMTP client classes")
+            for c2, tf in defs:
                 if (c2, tf.name) not in done:
                     done.add((c2, tf.name))
                     _check_transform(ctx, c2, tf, delim_srv)
-            ctx.check(bool(_definitions(ctx, CLIENT_CLASSES, tr.attr)), "client/transform-wired", ctx.construct(q, b) + " | resolves",
-                      f"self.{tr.attr} is not defined in the SMTP client classes")
-    cbs = [c for c in ast.walk(f) if isinstance(c, ast.Call) and call_attr(c) in ("addCallback", "addCallbacks", "addBoth") and c.args and is_self_attr(c.args[0])]
-    ctx.check(bool(cbs), "client/finish-wired", q,
-              "nothing is chained to the FileSender Deferred: the terminating '.' line is never sent, the transfer does not end")
-    for c in cbs:
-        defs = _definitions(ctx, CLIENT_CLASSES, c.args[0].attr)
-        ctx.check(bool(defs), "client/finish-wired", ctx.construct(q, c), f"self.{c.args[0].attr} is not defined")
+    cbs = []
+    for name, a, kw in deferred.calls:
+        if name in ("addCallbacks", "addCallback", "addBoth") and a:
+            cbs.append(a[0])
+        elif name == "addCallbacks" and "callback" in kw:
+            cbs.append(kw["callback"])
+    finishers = [_method_name(c) for c in cbs if _method_name(c)]
+    ctx.check(bool(finishers), "client/finish-wired", q,
+              "nothing of the client is chained to the FileSender Deferred: the terminating '.' line is never sent, the transfer does not end")
+    for fname in finishers:
+        defs = _definitions(ctx, CLIENT_CLASSES, fname)
+        ctx.check(bool(defs), "client/finish-wired", q + " | finisher resolves", f"self.{fname} is not defined")
         for c2, ff in defs:
             if (c2, ff.name) not in done:
                 done.add((c2, ff.name))
@@ -302,134 +371,132 @@ def _check_sendline(ctx, delim_cli):
 # ---- FileSender -----------------------------------------------------------------------------------------
 
 def _check_filesender(ctx):
+    """FileSender.resumeProducing (with whatever private helpers it calls) evaluated call after call on a modelled file, consumer,
+    transform and Deferred."""
+    mod = ctx.mod(BASIC)
+    cls = ctx.cls(BASIC, "FileSender")
     f = ctx.func(BASIC, "FileSender.resumeProducing")
-    g = ctx.cfg(f)
     q = "twisted.protocols.basic.FileSender.resumeProducing"
-    writes = g.find(lambda x: isinstance(x, ast.Call) and call_name(x) == "self.consumer.write")
-    ctx.need(writes, "self.consumer.write(...) in FileSender.resumeProducing")
-    reads = g.ids(lambda n: n.kind == "stmt" and isinstance(n.ast, ast.Assign) and isinstance(n.ast.value, ast.Call)
-                  and call_name(n.ast.value) == "self.file.read")
-    ctx.need(reads, "chunk = self.file.read(...) in FileSender.resumeProducing")
-    transforms = g.ids(lambda n: n.kind == "stmt" and isinstance(n.ast, ast.Assign) and isinstance(n.ast.value, ast.Call)
-                       and call_name(n.ast.value) == "self.transform")
-    no_transform = []
-    for t in g.ids(lambda n: n.kind == "test" and "self.transform" in src(n.ast)):
-        try:
-            lab = "T" if peval(g.node(t).ast, {"self.transform": None}) else "F"   # the edge taken when no transform is set
-        except (NotPure, Raised):
-            continue
-        no_transform.append((t, lab))
-    for w in writes:
-        call = next(x for x in walk_local(g.node(w).ast) if isinstance(x, ast.Call) and call_name(x) == "self.consumer.write")
-        var = src(call.args[0]) if call.args else ""
-        tr_ok = [t for t in transforms if src(g.node(t).ast.targets[0]) == var and len(g.node(t).ast.value.args) == 1
-                 and src(g.node(t).ast.value.args[0]) == var]
-        wit = g.path(reads, [w], avoid=set(tr_ok), edge_ok=lambda a, b, l: l != "exc" and (a, l) not in no_transform)
-        ctx.check(wit is None, "filesender/transform-every-chunk", ctx.construct(q, call),
-                  "a chunk read from the file can reach consumer.write without passing through self.transform although a "
-                  "transform is set (raw LF / un-stuffed dots on the wire)", witness=g.describe(wit))
-        ctx.check(g.guarded(w, lambda e: src(e) == var, True), "filesender/write-nonempty", ctx.construct(q, call),
-                  "an empty read (EOF) is written instead of ending the transfer")
-        # last byte remembered after the write, from the written value
-        lasts = g.ids(lambda n: n.kind == "stmt" and isinstance(n.ast, ast.Assign) and any(is_self_attr(t, "lastSent") for t in n.ast.targets))
-        good = []
-        for l in lasts:
-            v = g.node(l).ast.value
+    funcs = FollowModule(mod, dict(COMPAT), module_env(mod))
+
+    def run(chunks, transform):
+        pending = list(chunks)
+        fileobj = _Recorder("file", {"read": lambda *a, **kw: pending.pop(0) if pending else b""})
+        consumer = _Recorder("consumer")
+        deferred = _Recorder("deferred")
+        env = class_env([cls], module_env(mod))
+        env.update({"self": object(), "self.file": fileobj, "self.consumer": consumer, "self.transform": transform, "self.deferred": deferred})
+        bind_methods(env, [cls], funcs, skip={f.name})
+        trace = []
+        for step in range(len(chunks) + 1):
+            before = len(consumer.calls)
             try:
-                ok = all(peval(v, {var: s}) == s[-1:] for s in (b"abc", b"a", b"x\r\n", b"\n"))
-            except (NotPure, Raised):
-                ok = False
-            ctx.check(ok, "filesender/last-byte", ctx.construct(q, g.node(l).ast),
-                      "lastSent is not the last byte of the chunk just written: finishedFileTransfer decides from it whether the body "
-                      "already ended a line, so the terminating '.' may be glued to the last line or preceded by a spurious blank line")
-            if ok:
-                good.append(l)
-            ctx.check(not any(g.path([l], [t]) for t in transforms), "filesender/last-byte", ctx.construct(q, g.node(l).ast) + " | after transform",
-                      "lastSent is taken before the chunk is transformed")
-        wit = g.must_pass([w], good, exc=False)
-        ctx.check(bool(good) and wit is None, "filesender/last-byte", ctx.construct(q, call) + " | remembered",
-                  "a chunk can be written without its last byte being remembered in lastSent", witness=g.describe(wit))
-    # completion: callback(self.lastSent) only at EOF
-    cbs = g.find(lambda x: isinstance(x, ast.Call) and call_attr(x) == "callback" and (call_name(x) or "").startswith("self.deferred"))
-    ctx.check(bool(cbs), "filesender/completion", q, "the transfer Deferred is never fired: the terminating '.' is never sent")
-    for c in cbs:
-        call = next(x for x in walk_local(g.node(c).ast) if isinstance(x, ast.Call) and call_attr(x) == "callback")
-        ctx.check(len(call.args) == 1 and src(call.args[0]) == "self.lastSent", "filesender/completion", ctx.construct(q, call),
-                  "the completion callback does not receive the last byte written")
-        var = src(g.node(reads[0]).ast.targets[0])
-        ctx.check(g.guarded(c, lambda e: src(e) == var, False), "filesender/completion", ctx.construct(q, call) + " | at EOF only",
-                  "completion is signalled although the last read returned data (the terminator would be sent mid-body)")
-    ctx.floor("filesender", len(writes) + len(cbs), 2)
+                r = eval_block(f.body, env, funcs=funcs)
+            except BlockRaised as ex:
+                raise AnalysisError(f"{q}: not evaluable ({ex})")
+            if r.raised:
+                raise AnalysisError(f"{q}: raises {r.raised}")
+            writes = [a[0] for name, a, kw in consumer.calls[before:] if name == "write"]
+            trace.append({"writes": writes, "lastSent": env.get("self.lastSent"), "fired": [a for name, a, kw in deferred.calls if name == "callback"],
+                          "unregistered": sum(1 for name, a, kw in consumer.calls if name == "unregisterProducer"), "deferred": env.get("self.deferred"), "file": env.get("self.file")})
+        return trace
+    mark = lambda c: b"<" + c + b">"          # noqa: E731  a transform whose output ends differently from its input
+    mark.__name__ = "lam"
+    chunks = [b"ab\n", b".c", b"d\n"]
+    for label, transform, T in (("with a transform", mark, mark), ("without a transform", None, lambda c: c)):
+        tr = run(chunks, transform)
+        for k, c in enumerate(chunks):
+            ctx.check(tr[k]["writes"] == [T(c)], "filesender/transform-every-chunk", f"{q} | chunk {k + 1} {label}",
+                      f"chunk {k + 1} ({c!r}) {label} is written as {tr[k]['writes']!r}; required {[T(c)]!r} (every chunk read goes through the transform exactly once, raw LF / "
+                      "un-stuffed dots must not reach the wire)")
+            ctx.check(tr[k]["lastSent"] == T(c)[-1:], "filesender/last-byte", f"{q} | after chunk {k + 1} {label}",
+                      f"after writing {T(c)!r} lastSent is {tr[k]['lastSent']!r} instead of {T(c)[-1:]!r}: finishedFileTransfer decides from it whether the body already ended a "
+                      "line, so the terminating '.' may be glued to the last line or preceded by a spurious blank line")
+            ctx.check(not tr[k]["fired"], "filesender/completion", f"{q} | not before EOF (chunk {k + 1} {label})",
+                      "completion is signalled although the last read returned data (the terminator would be sent mid-body)")
+        end = tr[len(chunks)]
+        ctx.check(end["writes"] == [], "filesender/write-nonempty", f"{q} | EOF {label}", f"at end of file {end['writes']!r} is written instead of ending the transfer")
+        ctx.check(end["fired"] == [(T(chunks[-1])[-1:],)] and end["unregistered"] == 1 and end["deferred"] is None and end["file"] is None, "filesender/completion", f"{q} | at EOF {label}",
+                  f"at end of file: callback calls {end['fired']!r}, unregisterProducer x{end['unregistered']}, deferred {'kept' if end['deferred'] is not None else 'cleared'}; required exactly "
+                  f"one callback with the last byte written ({T(chunks[-1])[-1:]!r}) after unregistering the producer")
 
-
-# ---- reader -----------------------------------------------------------------------------------------------
 
 def _check_reader(ctx, cn, f):
+    """The DATA-mode line handler (with the private helpers it calls) evaluated on one line at a time with recording messages."""
     q = f"twisted.mail.smtp.{cn}.{f.name}"
     ctx.functions.add(f"{SMTP}:{cn}.{f.name}")
-    g = ctx.cfg(f)
+    mod = ctx.mod(SMTP)
+    chain = [ctx.cls(SMTP, "SMTP")] + ([ctx.cls(SMTP, cn)] if cn != "SMTP" else [])
+    menv = module_env(mod)
     ctx.need(len(f.args.args) == 2, f"{q}(self, line)")
     line = f.args.args[1].arg
-    is_line = lambda e: isinstance(e, ast.Name) and e.id == line  # noqa: E731
-    strips = g.ids(lambda n: n.kind == "stmt" and isinstance(n.ast, (ast.Assign, ast.AugAssign)) and any(is_line(t) for t in _targets(n.ast)))
-    ends = g.ids(lambda n: n.kind == "stmt" and isinstance(n.ast, ast.Assign) and any(is_self_attr(t, "mode") for t in n.ast.targets))
-    eoms = g.find(lambda x: isinstance(x, ast.Call) and call_attr(x) == "eomReceived")
-    # guards are evaluated on the value of `line` at function entry: no strip may precede them
-    for site in ends + eoms + strips:
-        for t, _ in g.edge_guards(site):
-            if any(g.path([s], [t]) for s in strips):
-                raise AnalysisError(f"{q}: a guard of {g.node(site).text()} is evaluated after `{line}` was rewritten (not modelled)")
 
-    def sat(site):
-        return [c for c in READER_LINES if guards_hold(g, site, {line: c})]
-
-    ctx.check(bool(ends), "reader/terminator", q + " | end of DATA mode",
-              "no statement leaves DATA mode: the terminating '.' never ends the transfer")
-    for e in ends + eoms:
-        s = sat(e)
-        extra = [c for c in s if c != b"."]
-        ctx.check(s == [b"."], "reader/terminator", ctx.construct(q, g.node(e).ast),
-                  (f"the end-of-data action is also taken for body line(s) {extra!r}" if extra else
-                   "the end-of-data action is not taken for the line b'.'") + " (the transfer must end exactly at the client's terminating '.')")
-    ctx.check(bool(strips), "reader/strip-one-dot", q + " | de-stuffing",
-              "the leading '.' added by the client's dot-stuffing is never removed: every dot-line arrives with an extra '.'")
-    want = [c for c in READER_LINES if c[:1] == b"." and c != b"."]
-    for sidx in strips:
-        st = g.node(sidx).ast
-        s = sat(sidx)
-        bad = None
-        if s != want:
-            diff = sorted(set(s) ^ set(want))
-            bad = f"de-stuffing is applied to the wrong set of lines (differs on {diff!r})"
-        elif isinstance(st, ast.Assign):
-            for c in want:
-                try:
-                    v = peval(st.value, {line: c})
-                except (NotPure, Raised) as ex:
-                    raise AnalysisError(f"{q}: de-stuffing expression not evaluable: {src(st)} ({ex})")
-                if v != c[1:]:
-                    bad = f"the stuffed line {c!r} is delivered as {v!r} instead of {c[1:]!r}"
-                    break
-        else:
-            raise AnalysisError(f"{q}: de-stuffing statement shape not recognised: {src(st)}")
-        ctx.check(bad is None, "reader/strip-one-dot", ctx.construct(q, st), bad or "")
-    # every non-terminator line reaches message.lineReceived(line)
-    deliver_calls = g.find(lambda x: isinstance(x, ast.Call) and call_attr(x) == "lineReceived" and len(x.args) == 1 and is_line(x.args[0]))
-    deliver_loops = g.ids(lambda n: n.kind == "for" and any(isinstance(x, ast.Call) and call_attr(x) == "lineReceived" and len(x.args) == 1 and is_line(x.args[0])
-                                                            for b in n.ast.body for x in ast.walk(b)))
-    deliver = set(deliver_calls) | set(deliver_loops)
-    ctx.check(bool(deliver), "reader/delivers-every-line", q, "body lines are never handed to the message objects")
-    failed = [d for t in g.ids(lambda n: n.kind == "test" and src(n.ast) == "self.datafailed") for d, l in g.succ[t] if l == "T"]
-    wit = g.must_pass([g.entry], deliver | set(ends) | set(failed), exc=False)
-    ctx.check(wit is None, "reader/delivers-every-line", q + " | every path",
-              "a body line that is not the terminator can be dropped without reaching message.lineReceived", witness=g.describe(wit))
-    for d in sorted(deliver):
-        w = next((g.path([d], [s]) for s in strips if g.path([d], [s])), None)
-        ctx.check(w is None, "reader/delivers-every-line", ctx.construct(q, g.node(d).ast) + " | after de-stuffing",
-                  "the line is delivered before its stuffing dot is removed", witness=g.describe(w))
-        w = g.path(ends, [d], edge_ok=lambda a, b, l: l != "exc")
-        ctx.check(w is None, "reader/terminator", ctx.construct(q, g.node(d).ast) + " | terminator not delivered",
-                  "the terminating '.' line itself is delivered to the message as body content", witness=g.describe(w))
+    def run(value, inbody, refusing=False, state=None):
+        def refuse(*a, **kw):
+            raise SMTPServerError()
+        msgs = [_Recorder("message 1", {"lineReceived": refuse} if refusing else None), _Recorder("message 2")]
+        dl = _Recorder("DeferredList")
+        dl._returns["addCallback"] = lambda *a, **kw: dl
+        funcs = FollowModule(mod, dict(COMPAT), menv)
+        funcs["defer.DeferredList"] = lambda *a, **kw: dl
+        funcs["DeferredList"] = funcs["defer.DeferredList"]
+        env = class_env(chain, menv)
+        sent = []
+        env.update({"self": object(), "self.mode": menv["DATA"], "self.datafailed": None, "self.__messages": msgs, "self.__inheader": 0, "self.__inbody": inbody,
+                    "self.sendCode": lambda *a, **kw: sent.append(a), "self._messageHandled": lambda *a, **kw: None, line: value})
+        env["self._disconnect"] = lambda *a, **kw: None
+        if state is not None:
+            env.update(state)
+            env[line] = value
+        bind_methods(env, chain, funcs, skip={f.name})
+        try:
+            r = eval_block(f.body, env, funcs=funcs)
+        except BlockRaised as ex:
+            raise AnalysisError(f"{q}: not evaluable for line {value!r} ({ex})")
+        if r.raised:
+            raise AnalysisError(f"{q}: raises {r.raised} for line {value!r}")
+        if refusing:
+            return {"mode": env.get("self.mode"), "state": {k: v for k, v in env.items() if k.startswith("self.") and not callable(v)}, "sent": sent}
+        delivered = [[a[0] for name, a, kw in m.calls if name == "lineReceived"] for m in msgs]
+        eoms = [sum(1 for name, a, kw in m.calls if name == "eomReceived") for m in msgs]
+        return {"mode": env.get("self.mode"), "delivered": delivered, "eom": eoms}
+    bad_term = bad_strip = bad_deliver = None
+    for value in READER_LINES:
+        for inbody in (1, 0):
+            got = run(value, inbody)
+            is_term = value == b"."
+            ended = got["mode"] != menv["DATA"] or any(got["eom"])
+            if is_term:
+                if not (got["mode"] == menv["COMMAND"] and got["eom"] == [1, 1]) and bad_term is None:
+                    bad_term = (value, "the end-of-data actions are not taken for the line b'.' (mode %r, eomReceived calls %r)" % (got["mode"], got["eom"]))
+                if any(got["delivered"]) and bad_term is None:
+                    bad_term = (value, f"the terminating '.' line itself is delivered to the message as body content ({got['delivered'][0]!r})")
+                continue
+            if ended and bad_term is None:
+                bad_term = (value, f"the end-of-data action is also taken for the body line {value!r}")
+            want = value[1:] if value[:1] == b"." else value
+            for d in got["delivered"]:
+                body = [x for x in d if not (x == b"" and not inbody)] if (not inbody and want != b"") else d
+                if not ended and (not d or d[-1] != want or any(x not in (b"", want) for x in d)):
+                    if value[:1] == b"." and d and d[-1] in (value, value.lstrip(b".")) and d[-1] != want:
+                        bad_strip = bad_strip or (value, d, want)
+                    elif not d:
+                        bad_deliver = bad_deliver or (value, d, want, inbody)
+                    elif value[:1] == b".":
+                        bad_strip = bad_strip or (value, d, want)
+                    else:
+                        bad_deliver = bad_deliver or (value, d, want, inbody)
+    # a message sink that refuses a line: the rest of the body is still body, the failure is reported at the terminating '.'
+    got = run(b"body line", 1, refusing=True)
+    ctx.check(got["mode"] == menv["DATA"], "reader/terminator", q + " | DATA mode survives a refused line",
+              f"after a message object refused a body line the server is in mode {got['mode']!r}: the client is still sending the body, whose remaining lines would now run as "
+              "SMTP commands (the transfer ends only at the client's terminating '.')")
+    ctx.check(bad_term is None, "reader/terminator", q + " | end of DATA mode", bad_term and bad_term[1] + " (the transfer must end exactly at the client's terminating '.')",
+              detail=f"{len(READER_LINES)} lines x 2 header states")
+    ctx.check(bad_strip is None, "reader/strip-one-dot", q + " | de-stuffing",
+              bad_strip and f"the stuffed line {bad_strip[0]!r} is delivered as {bad_strip[1]!r} instead of {bad_strip[2]!r}: exactly one leading '.' must be removed")
+    ctx.check(bad_deliver is None, "reader/delivers-every-line", q + " | every line reaches the messages",
+              bad_deliver and f"the body line {bad_deliver[0]!r} (header state inbody={bad_deliver[3]}) is delivered as {bad_deliver[1]!r}; every message must receive {bad_deliver[2]!r}")
 
 
 def _check_dispatch(ctx, env):
@@ -475,12 +542,29 @@ def _check_dispatch(ctx, env):
 def _check_mode_writers(ctx):
     mod = ctx.mod(SMTP)
     n = 0
+    # intra-class call graph: a private helper called only from allowed writers inherits their permission
+    callers = {}
+    for sc in SERVER_CLASSES:
+        c = ctx.cls(SMTP, sc)
+        for name, m in methods(c).items():
+            for x in ast.walk(m):
+                if isinstance(x, ast.Call) and (call_name(x) or "").startswith("self.") and (call_name(x) or "").count(".") == 1:
+                    callers.setdefault(call_name(x)[5:], set()).add(f"{sc}.{name}")
+
+    def allowed(func, val, seen=()):
+        if (func, val) in MODE_WRITERS:
+            return True
+        name = func.split(".")[-1]
+        cs = callers.get(name, set())
+        if not name.startswith("_") or not cs or func in seen:
+            return False
+        return all(allowed(cf, val, seen + (func,)) for cf in cs)
     for sc in SERVER_CLASSES:
         c = ctx.cls(SMTP, sc)
         for a in class_accesses(mod, c, {"mode"}, receivers={"self"}):
             n += 1
             val = src(getattr(a.node, "value", None))
-            ok = (a.func, val) in MODE_WRITERS and a.kind == "assign"
+            ok = allowed(a.func, val) and a.kind == "assign"
             ctx.check(ok, "who-may-write/mode", ctx.construct("twisted.mail.smtp." + a.func, a.node),
                       f"self.mode is set to {val} in {a.func}: an unexpected writer can end (or fail to start) DATA mode, so body lines "
                       "would be interpreted as SMTP commands or commands swallowed as body")
@@ -587,6 +671,8 @@ MUTANTS = [
            '        chunk = self._lineStartDot.sub(b"..", chunk)\n        return chunk.replace(b"\\n", b"\\r\\n")\n',
            more=[(SMTP, "    ## Helpers for FileSender\n    ##\n", "    ## Helpers for FileSender\n    ##\n    _lineStartDot = re.compile(rb\"^\\.\", re.MULTILINE)\n\n")],
            expect_rule="stuffing/writer-semantics"),
+    Mutant("refused-line-leaves-data-mode", SMTP, "            self.datafailed = e\n            for message in self.__messages:\n                message.connectionLost()\n",
+           "            self.datafailed = e\n            self.mode = COMMAND\n            for message in self.__messages:\n                message.connectionLost()\n", expect_rule="reader/terminator"),
     Mutant("header-state-not-reset", SMTP, "        self.__inheader = self.__inbody = 0\n        self.sendCode(354", "        self.__inbody = 0\n        self.sendCode(354", expect_rule="do_DATA/armed-before-354"),
 ]
 SILENT = [
@@ -599,6 +685,15 @@ SILENT = [
            '        pad = b"" if self._atLineStart else b"x"\n        out = self._lineStartDot.sub(b"..", pad + chunk)[len(pad):]\n'
            '        self._atLineStart = chunk[-1:] == b"\\n"\n        return out.replace(b"\\n", b"\\r\\n")\n',
            more=[(SMTP, "    ## Helpers for FileSender\n    ##\n", "    ## Helpers for FileSender\n    ##\n    _lineStartDot = re.compile(rb\"^\\.\", re.MULTILINE)\n    _atLineStart = True\n\n")]),
+    Silent("filesender-chunk-writer-extracted", BASIC, "        if self.transform:\n            chunk = self.transform(chunk)\n        self.consumer.write(chunk)\n        self.lastSent = chunk[-1:]\n",
+           "        self._emit(chunk)\n\n    def _emit(self, chunk):\n        convert = self.transform\n        if convert:\n            chunk = convert(chunk)\n        self.consumer.write(chunk)\n        self.lastSent = chunk[-1:]\n"),
+    Silent("data-state-named-temporaries", SMTP, "        d = s.beginFileTransfer(self.getMailData(), self.transport, self.transformChunk)\n",
+           "        start = s.beginFileTransfer\n        body = self.getMailData()\n        d = start(body, self.transport, transform=self.transformChunk)\n"),
+    Silent("reader-helpers-extracted", SMTP, "            for message in self.__messages:\n                message.lineReceived(line)\n        except SMTPServerError as e:\n",
+           "            self._relay(line)\n        except SMTPServerError as e:\n",
+           more=[(SMTP, "    state_DATA = dataLineReceived\n", "    def _relay(self, line):\n        for message in self.__messages:\n            message.lineReceived(line)\n\n"
+                  "    def _leaveDataMode(self):\n        self.mode = COMMAND\n\n    state_DATA = dataLineReceived\n"),
+                 (SMTP, "                self.mode = COMMAND\n                if self.datafailed:\n", "                self._leaveDataMode()\n                if self.datafailed:\n")]),
     Silent("reader-startswith-and-inverted-test", SMTP, '        if line[:1] == b".":\n            if line == b".":\n', '        if line.startswith(b"."):\n            if not line != b".":\n'),
     Silent("stuff-then-convert", SMTP, _TC, '        return chunk.replace(b"\\n.", b"\\n..").replace(b"\\n", b"\\r\\n")\n'),
     Silent("finish-branches-swapped", SMTP, '        if lastsent != b"\\n":\n            line = b"\\r\\n."\n        else:\n            line = b"."\n',
